@@ -144,6 +144,8 @@ def check_enum(ctx, case):
         v = enum_string(n)
         ctx.evaluations += 1
         ctx.digests.add(hash(("enum", n)) & 0xFFFFFFFFFFFFFFFF)
+        if n in (300, 2000):
+            ctx.add_sample({"kind": "enum", "index": n, "value": v})
         placements = [("value", [("TITLE", v)], None), ("second-value", [("A", "1"), ("", v)], None),
                       ("multi-value", [("ATTACKS", v)], None)]
         if v == v.strip():
